@@ -50,6 +50,13 @@ impl SwiftField for Field55A {
         // Parse BIC code
         let bic = parse_bic(lines[line_idx])?;
 
+        // Nothing may follow the identifier code: an extra line is not part of the format
+        if lines.len() > line_idx + 1 {
+            return Err(ParseError::InvalidFormat {
+                message: "Field 55A has an unexpected line after the BIC".to_string(),
+            });
+        }
+
         Ok(Field55A {
             party_identifier,
             bic,
